@@ -569,3 +569,76 @@ def setup_ops(rng, cfg, namer):
             }
         )
     return ops
+
+
+# ---- builders used as mutators of existing vertices ----------------------------
+def g_adj_dict(sg, rng, view, namer, cells=None):
+    pool = sg.pool(view)
+    if not pool or not sg.room_for_links(view):
+        return None
+    nkeys = rng.choice([1, 1, 2, 3])
+    keys = rng.sample(pool, min(nkeys, len(pool)))
+    adj = []
+    budget = sg.cfg.get("max_links", 10) - len(view.edges()) - len(view.multis())
+    for k in keys:
+        n = rng.choice([0, 1, 1, 2, 3])
+        vals = []
+        for _ in range(n):
+            if budget <= 0:
+                break
+            vals.append(sg.pick_vertex(rng, view, prefer=[k] + vals, allow_none=False))
+            budget -= 1
+        adj.append([k, vals])
+    op = {"op": "adj_dict", "new": namer.new("u"), "adj": adj}
+    if rng.random() < 0.75:
+        op["cls"] = sg.edge_class(rng)
+    else:
+        op["cls"] = None
+    return op
+
+
+def g_adj_matrix(sg, rng, view, namer, cell_pool=("0", "0", "1"), p_bad_shape=0.0):
+    pool = sg.pool(view)
+    if not pool or not sg.room_for_links(view):
+        return None
+    n = rng.choice([1, 2, 2, 3, 4])
+    if rng.random() < 0.85:
+        verts = rng.sample(pool, min(n, len(pool)))
+    else:
+        verts = [rng.choice(pool) for _ in range(n)]
+    n = len(verts)
+    budget = sg.cfg.get("max_links", 10) - len(view.edges()) - len(view.multis())
+    matrix = []
+    for _ in range(n):
+        row = []
+        for _ in range(n):
+            c = rng.choice(cell_pool)
+            from egsim.ops import cell_truth
+
+            if cell_truth(c):
+                if budget <= 0:
+                    c = "0"
+                else:
+                    budget -= 1
+            row.append(c)
+        matrix.append(row)
+    if rng.random() < p_bad_shape:
+        r = rng.random()
+        if r < 0.35 and matrix:
+            i = rng.randrange(len(matrix))
+            if rng.random() < 0.5 and matrix[i]:
+                matrix[i] = matrix[i][:-1]
+            else:
+                matrix[i] = matrix[i] + ["1"]
+        elif r < 0.6:
+            verts = verts + [rng.choice(pool)]
+        elif r < 0.8 and verts:
+            verts = verts[:-1]
+        else:
+            matrix = matrix + [["1"] * n]
+    op = {"op": "adj_matrix", "new": namer.new("u"), "matrix": matrix, "verts": verts}
+    if rng.random() < 0.75:
+        op["cls"] = sg.edge_class(rng)
+    else:
+        op["cls"] = None
+    return op
